@@ -527,3 +527,36 @@ func ZZHarnessAttesterPostReject() {
 	}
 	zzReach("end")
 }
+
+// ZZHarnessAttesterReplayAfterOthers (C03): the duty decides (one legitimate signature); then J decided
+// certificates for other symbolic heights arrive (they may rotate the controller's bounded instance
+// container); then a certificate for the duty height arrives again (a peer's aggregate with more signers, or a
+// plain replay): no second signature for the same decided object.
+func ZZHarnessAttesterReplayAfterOthers() {
+	n := int(zzParam("N"))
+	j := int(zzParam("J"))
+	own := zzCommitteeIDs[n][int(zzParam("OWN"))]
+	g := zzNewRRig(n, own)
+	H := phase0.Slot(zzNondetRange("dutySlot", 2, 4))
+	g.bn.att.Slot = H
+	duty := &spectypes.Duty{Type: spectypes.BNRoleAttester, Slot: H, ValidatorIndex: 7, CommitteeLength: 4}
+	zzAssume(g.r.StartNewDuty(g.lg, duty) == nil)
+	ownValue, _ := zzCDEncode(&spectypes.ConsensusData{Duty: *duty, Version: spec.DataVersionPhase0, DataSSZ: []byte{0xA7, 1}})
+	zzPhase = 2
+	zzAssume(g.r.ProcessConsensus(g.lg, g.decided(specqbft.Height(H), 1, ownValue, int(g.share.Quorum))) == nil)
+	zzAssume(len(g.km.sigs) == 1)
+	for step := 0; step < j; step++ {
+		h := specqbft.Height(uint64(H) + zzNondetRange("dh", 0, 4) - 1)
+		otherDuty := *duty
+		otherDuty.Slot = phase0.Slot(h)
+		val, _ := zzCDEncode(&spectypes.ConsensusData{Duty: otherDuty, Version: spec.DataVersionPhase0, DataSSZ: []byte{0xA7, 1}})
+		_ = g.r.ProcessConsensus(g.lg, g.decided(h, 1, val, int(g.share.Quorum)))
+		zzAssert(len(g.km.sigs) == 1, "certificates-for-other-heights-cause-no-signature")
+	}
+	ns := int(g.share.Quorum) + zzChoose("extraSigners", 2)
+	_ = g.r.ProcessConsensus(g.lg, g.decided(specqbft.Height(H), 1, ownValue, ns))
+	zzPhase = 0
+	zzAssert(len(g.km.sigs) == 1, "no-second-signature-for-the-decided-object-after-other-certificates")
+	g.checkSigLog(H, "replay-after-others")
+	zzReach("end")
+}
